@@ -830,7 +830,11 @@ func TestC39(t *testing.T) {
 		runtime.GOMAXPROCS(g)
 		mon.Parallel(len(idxs), workers, func(k int) {
 			i := idxs[k]
+			t0 := time.Now()
 			out := runHistory(r, i, hs[i])
+			if os.Getenv("C39_DEBUG") != "" {
+				fmt.Printf("hist %d G=%d took %v class=%s\n", i, hs[i].G, time.Since(t0).Round(time.Millisecond), out.class)
+			}
 			r.Case(out.class, out.nontrivial)
 			r.Event("histories", 1)
 		})
